@@ -412,9 +412,13 @@ def make_large(n, seed):
     return out, gx, gy
 
 
-def large_suite(n, seed, repeats=3):
+def large_suite(n, seed, repeats=3, slow_points=None):
     """every kernel family reachable from the public API on large arrays: returns
-    ({name: digest of the first run}, [names whose repeats differ], [scalar-form disagreements])"""
+    ({name: digest of the first run}, [names whose repeats differ], [scalar-form disagreements]).
+    slow_points: the point kernels against a multipoint / line / multiline open one numba parallel region PER POINT
+    (the threads split the vertices of the shape, not the points): 0.3 ms per point with 16 threads, 17 s per call on
+    60 000 points.  The number of points adds nothing there, so these three run on `slow_points` points (those lying
+    on the shapes + the first ones) when it is given."""
     import numpy as np
     from spatialpandas.geometry import Line, MultiLine, MultiPoint, MultiPolygon, Polygon
     from spatialpandas.spatialindex import HilbertRtree
@@ -471,15 +475,28 @@ def large_suite(n, seed, repeats=3):
     # (numba launches a nested parallel region per point for the multipoint / line kernels, which
     # is slow with many threads: the inds variant uses a short index list)
     inds = rs.randint(0, n, 4000).astype('int64')
+    pts_all, sample_all = pts, sample
+    if slow_points is not None and slow_points < n:
+        on_shape = np.flatnonzero((x == y) | (y == 500.0) | (x == 250.0))
+        sub = np.unique(np.concatenate([on_shape, pick[:60], np.arange(slow_points)]))
+        pts_sub = pts.take(sub)
+        sample_sub = rs.randint(0, len(sub), 40)
+        inds_sub = rs.randint(0, len(sub), 1000).astype('int64')
     for nm, sh in shapes.items():
+        if slow_points is not None and slow_points < n and nm in ('multipoint', 'line', 'multiline'):
+            pts, sample, ix = pts_sub, sample_sub, inds_sub
+        else:
+            pts, sample, ix = pts_all, sample_all, inds
+        m = len(pts)
         res = np.asarray(run(f'large:point.intersects:{nm}', lambda s=sh: pts.intersects(s)))
-        run(f'large:point.intersects[inds]:{nm}', lambda s=sh: pts.intersects(s, inds=inds))
-        if not (0 < int(res.sum()) < n):
-            scalar_bad.append(f'point.intersects:{nm}: not a mixed hit/miss case ({int(res.sum())}/{n})')
+        run(f'large:point.intersects[inds]:{nm}', lambda s=sh: pts.intersects(s, inds=ix))
+        if not (0 < int(res.sum()) < m):
+            scalar_bad.append(f'point.intersects:{nm}: not a mixed hit/miss case ({int(res.sum())}/{m})')
         for i in sample:
             if bool(pts[int(i)].intersects(sh)) != bool(res[i]):
                 scalar_bad.append(f'point.intersects:{nm}[{int(i)}]')
                 break
+    pts = pts_all
     # R-tree: build + queries, through the array (sindex / cx) and directly
     pb = np.asarray(arrs['polygon'].bounds, dtype='float64')
     qb = np.array(box)
@@ -708,7 +725,8 @@ def worker_sched(seed, tier):
     nl = 60000 if tier == 'quick' else 250000
     res['large_n'] = nl
     with phase('large arrays (60 000 elements)'):
-        res['large'], res['large_unstable'], res['large_scalar_bad'] = large_suite(nl, 5)
+        res['large'], res['large_unstable'], res['large_scalar_bad'] = large_suite(
+            nl, 5, slow_points=2000 if tier == 'quick' else None)
     # (the same inputs in every process: the seed of the run, not the per-process one)
     from . import c18_float as F
     base_seed = int(os.environ.get('C18_BASE_SEED', '0'))
